@@ -94,6 +94,9 @@ func runOne(spec RunSpec) *RunResult {
 	} else {
 		res.Class = "faulty"
 	}
+	if s.Lags > 0 {
+		res.Fired["sched.lag"] = s.Lags
+	}
 	if s.Stalls > 0 {
 		res.Fired["sched.stall"] = s.Stalls
 	}
@@ -206,6 +209,14 @@ func (w *World) drawSchedule(allowStall bool) {
 	if allowStall && scnChance(1, 2) {
 		stall = []int{5, 20, 60}[scn(3)]
 	}
+	lag := 0
+	if allowStall && scnChance(1, 3) {
+		lag = []int{5, 20, 60}[scn(3)]
+	}
+	lagWake := 0
+	if allowStall && scnChance(1, 3) {
+		lagWake = []int{50, 150, 400}[scn(3)]
+	}
 	depth := 1 + scn(4)
 	s.Configure(func(c *simrt.Config) {
 		switch {
@@ -220,14 +231,17 @@ func (w *World) drawSchedule(allowStall bool) {
 		}
 		if c.Policy == simrt.PolPCT {
 			stall /= 10 // PCT takes a scheduler decision at every step: keep simulated time from running away
+			lag /= 10
 		}
+		c.LagPM = lag
+		c.LagWakePM = lagWake
 		c.SwitchPM = sw
 		c.HotFiles = hotFiles
 		c.HotPM = hot
 		c.StallPM = stall
 		c.Grid = w.Grid
 	})
-	w.describe("sched policy=%d switch=%d‰ hot=%v@%d‰ stall=%d‰", s.Cfg().Policy, sw, hotFiles, hot, stall)
+	w.describe("sched policy=%d switch=%d‰ hot=%v@%d‰ stall=%d‰ lag=%d‰ late-wake=%d‰", s.Cfg().Policy, sw, hotFiles, hot, stall, lag, lagWake)
 }
 
 // tasks runs fs as concurrent harness tasks and waits for all of them.
